@@ -54,7 +54,28 @@ Section AnyEngine.
   Theorem C10_norepeats : forall f c l, Den f c (Fin l) -> (forall v, In v l -> py_eq v (VInt MAXSIZE) = false) ->
     Den (S (f + List.length l + 2)) (PNoRepeats (AP c) (VInt MAXSIZE)) (Fin (ref_norepeats_from (VInt MAXSIZE) l)).
   Proof. exact (norepeats_den binop LMAX). Qed.
+
+  (* PPadToMultiple(p, multiple, minimum_pad), multiple >= 1: p, then at least minimum_pad rests and as many more as
+     make the total length a multiple; an endless p is left alone *)
+  Theorem C10_pad_to_multiple : forall f c s m mp, (1 <= m)%nat -> Den f c s ->
+    Den (S (S f)) (PPadToMultiple (AP c) (VInt (Z.of_nat m)) (VInt (Z.of_nat mp)) 0 0) (sem_pad_to_multiple m mp s).
+  Proof. exact (padm_den binop LMAX). Qed.
+
+  (* PLoop(p, count), count >= 1: the values of p, count times (also for an empty p: nothing); an endless p is played
+     as it is *)
+  Theorem C10_loop : forall f c s count, (1 <= count)%nat -> Den f c s ->
+    Den (S (S f)) (PLoop (AP c) (VInt (Z.of_nat count)) 0 0 false []) (sem_loop count s).
+  Proof. exact (loop_den binop LMAX). Qed.
+
+  (* PSubsequence(p, offset, length): the values of p at the indices offset .. offset + length - 1 that exist; p finite or
+     endless (the first call reads offset + 1 values: that many units of fuel) *)
+  Theorem C10_subsequence : forall f c s off n, Den f c s ->
+    Den (S (S (f + off))) (PSubsequence (AP c) (AV (VInt (Z.of_nat off))) (AV (VInt (Z.of_nat n))) 0 []) (sem_subsequence off n s).
+  Proof. exact (subsequence_den binop LMAX). Qed.
 End AnyEngine.
+Print Assumptions C10_pad_to_multiple.
+Print Assumptions C10_loop.
+Print Assumptions C10_subsequence.
 Print Assumptions C10_fuel_irrelevant.
 Print Assumptions C10_impulse.
 Print Assumptions C10_counter.
@@ -107,3 +128,22 @@ Proof.
   split; [intros v H; cbn in H; repeat (destruct H as [<-|H]; [vm_compute; reflexivity|]); destruct H|].
   split; vm_compute; reflexivity.
 Qed.
+
+Example C10_pad_to_multiple_nonvacuous :
+  Den Val.binop 100 2 (PSequence (AL (map AV (map zi [1; 2; 3]))) (AV (VInt 1)) 0 0) (Fin (map zi [1; 2; 3]))
+  /\ ref_pad_to_multiple 4 2 (map zi [1; 2; 3]) = map zi [1; 2; 3] ++ repeat VNone 5
+  /\ outs 40 9 (ECall CPadToMultiple [EP (seq_ [1; 2; 3] 1); EV (VInt 4); EV (VInt 2)]) = yields (ref_pad_to_multiple 4 2 (map zi [1; 2; 3])).
+Proof. split; [exact (C10_sequence Val.binop 100 0 (map zi [1; 2; 3]) 1)|]. split; vm_compute; reflexivity. Qed.
+
+Example C10_loop_nonvacuous :
+  ref_loop 3 (map zi [1; 2]) = map zi [1; 2; 1; 2; 1; 2]
+  /\ outs 40 7 (ECall CLoop [EP (seq_ [1; 2] 1); EV (VInt 3)]) = yields (ref_loop 3 (map zi [1; 2]))
+  /\ outs 40 2 (ECall CLoop [EP (seq_ [] 1); EV (VInt 3)]) = [Stop; Stop].
+Proof. repeat split; vm_compute; reflexivity. Qed.
+
+Example C10_subsequence_nonvacuous :
+  ref_subsequence 1 2 (map zi [1; 2; 3; 4]) = map zi [2; 3]
+  /\ outs 40 3 (ECall CSubsequence [EP (seq_ [1; 2; 3; 4] 1); EV (VInt 1); EV (VInt 2)]) = yields (map zi [2; 3])
+  /\ outs 40 4 (ECall CSubsequence [EP (ECall CImpulse [EV (VInt 2)]); EV (VInt 3); EV (VInt 3)]) = yields (map zi [0; 1; 0])
+  /\ outs 40 2 (ECall CSubsequence [EP (seq_ [1; 2; 3] 1); EV (VInt 2); EV (VInt 5)]) = yields (map zi [3]).
+Proof. repeat split; vm_compute; reflexivity. Qed.
